@@ -13,7 +13,9 @@ EXTENDS Integers, Sequences, TLC
 
 U16At(b, i) == b[i] * 256 + b[i + 1]
 IsGrease16(c) == (c \div 256) = (c % 256) /\ (c % 16) = 10
-IsGrease8(c)  == (c % 16) = 11 \/ FALSE        \* one-byte GREASE values do not exist for point formats; kept for symmetry
+\* RFC 8701 defines one-byte GREASE values only for PskKeyExchangeModes (0x0B, 0x2A, 0x49, .., 0xE4); whether a
+\* JA3 implementation drops them from the one-byte point-format section is not settled by the JA3 text: both accepted
+IsGrease8(c)  == c \in {11, 42, 73, 104, 135, 166, 197, 228}
 
 RECURSIVE U16List(_, _, _)
 U16List(b, i, n) == IF n < 2 THEN <<>> ELSE <<U16At(b, i)>> \o U16List(b, i + 2, n - 2)      \* n bytes from i
@@ -46,10 +48,13 @@ PointFormats(b) == LET x == BodyOf(b, 11) IN IF x[2] < 1 THEN <<>> ELSE U8List(b
 
 NotGrease(c) == ~IsGrease16(c)
 NotScsv(c) == c # 255 /\ c # 22016
-Ja3Variant(b, keepGreaseSuites, dropScsv) ==
+NotGrease8(c) == ~IsGrease8(c)
+Ja3Variant2(b, keepGreaseSuites, dropScsv, dropGrease8) ==
    LET s1 == IF keepGreaseSuites THEN Suites(b) ELSE Filter(Suites(b), NotGrease)
        s2 == IF dropScsv THEN Filter(s1, NotScsv) ELSE s1
    IN ToString(U16At(b, 5)) \o "," \o Join(s2, "-") \o "," \o Join(Filter(ExtTypes(b), NotGrease), "-") \o ","
-      \o Join(Filter(Groups(b), NotGrease), "-") \o "," \o Join(PointFormats(b), "-")
+      \o Join(Filter(Groups(b), NotGrease), "-") \o ","
+      \o Join(IF dropGrease8 THEN Filter(PointFormats(b), NotGrease8) ELSE PointFormats(b), "-")
+Ja3Variant(b, keepGreaseSuites, dropScsv) == Ja3Variant2(b, keepGreaseSuites, dropScsv, FALSE)
 Ja3(b) == Ja3Variant(b, FALSE, FALSE)
 =============================================================================
